@@ -121,6 +121,8 @@ pub use sessions::p2p_spectator_session::SpectatorSession;
 pub use sessions::sync_test_session::SyncTestSession;
 pub use sync_layer::{GameStateAccessor, GameStateCell};
 
+#[cfg(feature = "verif-hooks")]
+pub mod verif_hooks;
 pub(crate) mod error;
 pub(crate) mod frame_info;
 pub(crate) mod input_queue;
